@@ -500,3 +500,5 @@ def run(tier, seed):
     shards.sort(key=lambda s: -(s[1] * s[2] if s[0] == "lhs" else 0))
     col = run_shards(_shard, shards)
     return col, {"exhaustive": True, "boxes": BOXES}
+
+RULE += (' Beyond small: LHS for N in {300, 511..514, 600, 1000, 1023..1025, 1200, 2048, 2049, 4097}, Halton for the same round numbers, random counts up to 4097, parameter lists whose members declare different keys.')
